@@ -26,6 +26,7 @@ static long long vs_now_ns()
 #endif
 #include "path_oracle.hpp"
 #include "planners.hpp"
+#include "cost_oracle.hpp"
 #include <ompl/base/SpaceInformation.h>
 #include <ompl/base/ProblemDefinition.h>
 #include <ompl/base/PlannerTerminationCondition.h>
@@ -511,6 +512,66 @@ static void scInterrupt(const std::string &planner, const std::string &map, int 
     P.reset();
 }
 
+// ------------------------------------------------------------------ C04 under the scheduler (compiled with -DSCEN_C04 into c04_threads):
+// PRM / PRM* answer a short query, the query is replaced (clearQuery keeps the roadmap | clear), the main, costlier query is solved and
+// continued; after every solve the stored cost of every reported solution is compared with the harness fold of its path.
+static void scCosts(const std::string &planner, const std::string &map, int sw, tse::Out &out)
+{
+    vw::Cfg c;
+    c.planner = "RRT";
+    c.map = map;
+    c.objectiveKind = "length";
+    c.costThreshold = 1e6;  // every exact solution meets the objective: the optimized flag is decided by the stored cost
+    std::unique_ptr<vw::Problem> P = std::make_unique<vw::Problem>(c);
+    const vpl::Ent *e = vpl::find(planner);
+    ob::PlannerPtr pl = e->make(P->si);
+    ob::ProblemDefinitionPtr cur = vco::shortQuery(*P), other = P->pdef;
+    pl->setProblemDefinition(cur);
+    pl->setup();
+    P->planner = pl;
+    std::string obs;
+    auto fail = [&](const std::string &k, const std::string &w) { out.fail(k.substr(0, 4) == "C04|" ? "C04|threaded|" + k.substr(4) : k, w); };
+    bool haveBest = false;
+    ob::Cost best;
+    for (int budget : {25, sw, 45, 30})
+    {
+        if (budget < 0)
+        {
+            if (budget == -1)
+                pl->clearQuery();
+            else
+                pl->clear();
+            std::swap(cur, other);
+            cur->clearSolutionPaths();
+            pl->setProblemDefinition(cur);
+            haveBest = false;
+            continue;
+        }
+        std::atomic<long> calls{0};
+        ob::PlannerTerminationCondition ptc([&calls, budget] { return ++calls > budget; });
+        ob::PlannerStatus st = pl->solve(ptc);
+        vco::Best now;
+        vco::checkCosts(P->space.get(), cur.get(), e->flags, planner, "length", fail, nullptr, now);
+        auto opt = cur->getOptimizationObjective();
+        if (haveBest && now.have && opt->isCostBetterThan(best, now.cost) && std::fabs(best.value() - now.cost.value()) > 1e-9 * (1 + std::fabs(best.value())))
+            fail("C04|best-cost-worsens|" + planner, "best stored cost of an exact solution went from " + vf::jnum(best.value()) + " to " + vf::jnum(now.cost.value()) + " across continued solves");
+        if (now.have)
+        {
+            best = now.cost;
+            haveBest = true;
+        }
+        char b[64];
+        snprintf(b, sizeof b, "%s/%zu/%.6g ", st.asString().c_str(), cur->getSolutionCount(), now.have ? now.cost.value() : -1.0);
+        obs += b;
+    }
+    out.obs = obs;
+    pl.reset();
+    P->planner.reset();
+    cur.reset();
+    other.reset();
+    P.reset();
+}
+
 struct Scenario
 {
     std::string name;
@@ -556,6 +617,37 @@ static bool findScenario(const std::string &name, Scenario &sc)
             sc = s;
             return true;
         }
+    for (auto &s : jobScenarios(name.substr(0, p), false))
+        if (s.name == name)
+        {
+            sc = s;
+            return true;
+        }
+    return false;
+}
+#elif defined(SCEN_C04)
+static const char *PROP = "C04";
+static std::vector<std::string> jobNames()
+{
+    std::vector<std::string> j;
+    for (const char *pl : {"PRM", "PRMstar"})
+        for (const char *m : {"empty4", "wallgap4"})
+            j.push_back(std::string(pl) + "-" + m);
+    return j;
+}
+static std::vector<Scenario> jobScenarios(const std::string &job, bool)
+{
+    std::vector<Scenario> v;
+    std::string pl = job.substr(0, job.find('-')), m = job.substr(job.find('-') + 1);
+    for (int sw : {-1, -2})
+        v.push_back({job + (sw == -1 ? "-clearQuery" : "-clear"), [pl, m, sw](tse::Out &o) { scCosts(pl, m, sw, o); }, false, 1, 2, 3000});
+    return v;
+}
+static bool findScenario(const std::string &name, Scenario &sc)
+{
+    size_t p = name.rfind("-clear");
+    if (p == std::string::npos)
+        return false;
     for (auto &s : jobScenarios(name.substr(0, p), false))
         if (s.name == name)
         {
